@@ -83,6 +83,8 @@ CORPUS = {
     "rej.two.undefined": [" LDX #NOWHERE+ELSEWHERE", " JMP THIRD"],
     # addresses below $0100 (their natural width is two hex digits, the listing prints four)
     "low.org": [" NAM LOW", " ORG $0080", "START LDA #1", "LOOP DECA", " BNE LOOP", " STA VAR", " JMP DONE", "VAR FCB 0", "DONE RTS", " END START"],
+    # a source that ends in a DOS end-of-file mark on a line of its own (not a statement: refused - and the list stays as it was)
+    "rej.ctrlz": [" NOP", "\x1a"],
     "no.org.labels": ["START LDX #TAB", " LDA ,X", " JMP DONE", "TAB FCB 1,2", "DONE RTS"],
 }
 INCLUDED = {"shared.asm": ["GETVAL LDA VALUE", " LDB VALUE+1", " LEAX VALUE,PCR", " RTS"], "other.asm": [" LDA TABLE,X", " LDA 5,X", "OTHER RTS"],
